@@ -3,7 +3,7 @@
    lists of integers.  Rationals travel as numerator, denominator. *)
 From Coq Require Import List NArith ZArith QArith Qcanon Bool.
 From ACB Require Import Base.Outcome Base.QcExtra Base.Fit Base.Arith Model.Tx Model.Ledger
-     Model.Sfl Model.DeltaList Model.App.
+     Model.Sfl Model.DeltaList Model.App Spec.AvgCost.
 Import ListNotations.
 Local Open Scope Z_scope.
 
@@ -131,12 +131,26 @@ Definition run_arith : P (list Z) :=
         | _ => 1 :: oQ (round2 a)
         end).
 
+(* entry point "spec": the L0 average-cost rules applied to effective rows
+   (one security): opening position, rows with their denied amounts *)
+Definition pinit1 : P (option status) :=
+  h <~ pbool ;;
+  (if h then sh <~ pQ ;; acb <~ pQ ;; pret (Some {| s_sh := sh; s_all := sh; s_acb := Some acb |})
+   else pret None).
+Definition prow : P (tx * Qc) := t <~ ptx ;; d <~ pQ ;; pret (t, d).
+Definition oobs (o : row_obs) : list Z :=
+  let '(sh, acb, g) := o in oQ sh ++ oopt acb ++ oopt g.
+Definition run_spec : P (list Z) :=
+  init <~ pinit1 ;; rows <~ plist prow ;;
+  pret (Z.of_nat (length rows) :: flat_map oobs (spec_rows (spec_init init) rows)).
+
 Definition dispatch (l : list Z) : list Z :=
   match l with
   | mode :: r =>
       let p := match mode with
                | 0 => run_core
                | 1 => run_arith
+               | 2 => run_spec
                | _ => fun _ => None
                end in
       match p r with
